@@ -273,6 +273,7 @@ EvalLabeled(p, a, b) == Val(LabOuter(p, 0, Clamp(a), Clamp(b), 0))
 \* (a two-level decision tree: the shape on which a matcher that ignores control flow can be fooled by
 \* moving leaves or whole subtrees)
 Cond(c, a, b) == IF c = "b>0" THEN b > 0 ELSE a > b
+\* pre "yes": the two inner conditions are evaluated before the outer test (the arms then hold nothing but a branch);
 \* form "ret": the leaves return; form "glob": the leaves store into a package variable that is returned at
 \* the join (every leaf block then holds an instruction the matcher has to place) — same function
 EvalDecTree(p, a, b) ==
@@ -361,7 +362,7 @@ Effects == [tpl : {"effects"}, kind : {"stores", "calls", "mapupd"}, order : {"1
 ArmLoops == [tpl : {"armloops"}, cmp : {">=", ">", "<", "<="}, pres : {Plain}]
 MapLen == [tpl : {"maplen"}, where : {"in", "before"}, mty : {"plain", "named", "chan"}, use : {"sum", "last"}, pres : {Plain}]
 Leaves == {"a+b", "b", "7"}
-DecTree == [tpl : {"dectree"}, c2 : {"b>0", "a>b"}, c3 : {"b>0", "a>b"}, l1 : Leaves, l2 : Leaves, l3 : Leaves, l4 : Leaves, form : {"ret", "glob"}, pres : {Plain}]
+DecTree == [tpl : {"dectree"}, c2 : {"b>0", "a>b"}, c3 : {"b>0", "a>b"}, l1 : Leaves, l2 : Leaves, l3 : Leaves, l4 : Leaves, form : {"ret", "glob"}, pre : {"no", "yes"}, pres : {Plain}]
 Labeled == [tpl : {"labeled"}, jump : {"break", "continue"}, lim : {1, 3}, g : {"i*10+j", "j*10+i", "i+j"}, pres : {Plain}]
 SibLoops == [tpl : {"sibloops"}, ret : {"i-j", "j-i", "i+j", "i*2+j"}, pres : {Plain}]
 
